@@ -362,6 +362,42 @@ scan
 reopen
 getall
 """),
+    # found by LsmGen family A (tag auto0first): the automatic level-0 compaction picks ONE file that overlaps level 1 without any
+    # other level-0 file joining - it must be merged, never moved
+    dict(tags=['scn_auto_single_overlap'], big=False, text="""put 9
+put 3
+put 12
+flush
+getall
+put 12
+put 6
+flush
+getall
+put 0
+del 3
+flush
+getall
+put 6
+put 6
+flush
+getall
+put 6
+flush
+getall
+put 6
+del 6
+flush
+getall
+put 3
+flush
+getall
+compactall
+getall
+getall
+scan
+reopen
+getall
+"""),
     dict(tags=['scn_deep_reopen2'], big=False, text="""put 0
 put 9
 flush
